@@ -9,7 +9,16 @@ Two monitors.
     "create / use 2..3 driver instances with distinct executable, nprocs and envars" (every interleaving of
     creations and uses up to a bound, optionally preceded by a class-level access).  Every JobInput obtained
     through driver_i must carry driver_i's executable, nprocs and environment and the caller's arguments.
-    The real XTBDriver is driven through the same histories (module reloaded per history).
+    The expected settings are the ones HANDED to the driver (private copies), never read back from the live driver
+    after a job attribute was touched; using a driver must leave the driver (and the dict given to it) unchanged.
+    Every history is run in variants: prepare at once / HOLD the bound jobs and the un-consumed generators of vectorised
+    jobs until the rest of the history happened; settings of an existing instance MODIFIED between two of its uses
+    (nprocs, executable, envars replaced / changed in place / set to None); instances made by copy.copy() of a used
+    instance; a driver subclass that declares class-level defaults; instances that differ in every field, in exactly
+    one of executable / nprocs / envars, in none, or that were given one shared envars dict.
+    The real XTBDriver (every job of the class, scan_dihedral included, every keyword with a non-default value, the
+    geometry and the input files looked at) is driven through the same histories (module reloaded per history), and so
+    are, in one small chunk each, CrestDriver, ORCADriver and NWChemDriver (vmon/models/c17_kits.py).
 
 (2) execution through real `_molli_run` subprocesses, invoked the way molli.pipeline.job._run_local does
     (`<bindir>/_molli_run <input> -o <outdir> -s <scratch>` with a cwd of the caller).  The commands of a job are
@@ -20,6 +29,10 @@ Two monitors.
     exit status; everything is compared after the process ended.  Pairs of jobs with the same jid and the same
     scratch directory are run concurrently with a rendez-vous inside their first command: the two working
     directories must differ.
+    Further dimensions of a case: the commands name their program WITHOUT a directory and the job's envars put another
+    directory first on PATH (the variant that ran is logged); the output directory is two levels below what exists;
+    something is already where the report goes (report of another input, of a failed attempt, a truncated file); the last
+    command that runs prints several MB on stdout and stderr; a requested name in a non-normalised spelling ("./x").
 """
 from __future__ import annotations
 
@@ -32,13 +45,20 @@ from pathlib import Path
 
 ID = "C17"
 LEVEL = "fault_enumeration"
-RULE = ("binding: every interleaving of creating and using 2..3 driver instances (distinct executable/nprocs/envars; "
-        "uses <= 3 quick / 4 thorough; with and without a class-level access first; plain, env-carrying, vectorised and "
-        "mixed jobs; test drivers declared like XTBDriver plus the real XTBDriver), non-trivial = at least two "
-        "different instances are used, distinct by (driver kind, job, history). execution: command lists of length "
+RULE = ("binding: every interleaving of creating and using 2..3 driver instances (settings that differ in every field / in "
+        "exactly one of executable, nprocs, envars / in none / one shared envars dict; uses <= 3 quick / 4 thorough; with "
+        "and without a class-level access first; plain, env-carrying, vectorised (also of the env-carrying job) and mixed "
+        "jobs; test drivers declared like XTBDriver plus the real XTBDriver job by job with every keyword set, and "
+        "Crest/ORCA/NWChem drivers) x (prepare at once | bound jobs and generators held until the history is over) x "
+        "(nothing | a setting of an instance modified between two of its uses | instances made by copy.copy | class-level "
+        "defaults on a driver subclass), non-trivial = at least two "
+        "different instances are used, distinct by (driver kind, job, history, variant). execution: command lists of length "
         "1..4 x first-failure position (none, 1..n; exit codes, signals, missing executable) x named/unnamed masks x "
         "subsets of requested files missing x return_files in {None, (), names} x text/binary(all 256 byte values) "
-        "input files x environment overrides x absolute/relative paths, each run by a real _molli_run process; "
+        "input files x environment overrides (PATH included: bare program names found on the runner's PATH, the job's "
+        "PATH or both) x absolute/relative paths x output directory present / absent two levels deep / holding an older "
+        "report under the same name x multi-MB captures x non-normalised requested names, each run by a real _molli_run "
+        "process; "
         "non-trivial = >= 2 commands and (a failure or a missing requested file or a binary input), distinct by the "
         "structural description of the case; plus concurrent same-jid pairs")
 ASSUMPTIONS = [
@@ -47,7 +67,12 @@ ASSUMPTIONS = [
     "and without residue (whether a JobOutput must then be written is not decided by the statement)",
     "stdout/stderr payloads are valid UTF-8 without carriage returns; command names and file names are file-system safe, "
     "distinct, and do not collide with the runner's capture files <name>.out/.err",
-    "driver-level and job-level envars use disjoint keys (precedence between them is not judged)",
+    "driver-level and job-level envars use disjoint keys (precedence between them is not judged); a Job-level "
+    "executable/nprocs override (Job(nprocs=...)) is not exercised; a driver setting changed while a bound job taken "
+    "before the change is still held is not judged (held jobs are prepared before the change)",
+    "a returned file is accepted under the name it was requested by or under the normalised spelling of that name",
+    "an explicit setting given to a driver instance must win over a class-level default of a driver subclass (the "
+    "statement speaks of the driver INSTANCE's executable / processor count)",
     "JobOutput.exitcode is only required to be non-zero when a command failed",
     "concurrency of a pair is established logically (both commands observed each other's marker files), never by time",
 ]
@@ -75,7 +100,27 @@ def REQUIRED(tier):
         "bind.churn-rounds": 150,
         "bind.class-access-first": 100,
         "bind.vectorised": 200,
-        "bind.xtb.prepare": 100,
+        "bind.xtb.prepare": 3000,                               # (14265)
+        # -- added after the gap review (observed on the quick tier in brackets)
+        "bind.mode.held": 5000,                                 # (21456) bound jobs / generators held over the history
+        "bind.held.across-another-drivers-use": 3000,           # (14412)
+        "bind.held.generator": 5000,                            # (23264)
+        "bind.modify": 3000,                                    # (10860) a setting changed between two uses of an instance
+        "bind.copy-created.of-a-used-driver": 2000,             # (7152)
+        "bind.mod.clsdef": 3000,                                # (10728) class-level defaults on a driver subclass
+        "bind.vectorised.job-level-envars": 5000,               # (22380)
+        "bind.check.driver-unchanged": 20000,                   # (> 100000)
+        "bind.xtb.arg.charge": 1500, "bind.xtb.arg.mult": 1500, "bind.xtb.arg.crit": 800,          # (9002, 8063, 4352)
+        "bind.xtb.arg.accuracy": 1000, "bind.xtb.arg.maxiter": 1500, "bind.xtb.arg.misc": 1000,    # (6400, 8448, 5568)
+        "bind.xtb.arg.xtbinp": 500, "bind.xtb.arg.charge-zero-on-charged-molecule": 400,           # (2807, 2133)
+        "bind.xtb.arg.n_steps": 500, "bind.xtb.arg.dihedral_atoms": 500,                           # (2304, 2304)
+        "bind.crest.prepare": 300, "bind.orca.prepare": 300, "bind.nwchem.prepare": 300,           # (896 each)
+        "exec.path.both": 20, "exec.path.job-only": 15, "exec.path.caller-only": 20,               # (50, 42, 58)
+        "exec.out.nested-absent": 20,                                                              # (48)
+        "exec.out.preexisting.other-input": 15, "exec.out.preexisting.failed-attempt": 15,         # (39, 39)
+        "exec.out.preexisting.garbage": 15,                                                        # (40)
+        "exec.capture.large": 8,                                                                   # (21)
+        "exec.rf.nonnormalised": 15,                                                               # (39)
         "exec.run": 200 if q else 2500,
         "exec.order": 150 if q else 2000,
         "exec.capture.named-command": 100,
@@ -100,14 +145,45 @@ def REQUIRED(tier):
     }
     for n, f in COMBOS:
         req[f"exec.n{n}.fail{'-none' if f < 0 else f + 1}"] = 8 if q else 100
+    for f in MODFIELDS:
+        req[f"bind.modify.{f}"] = 500                           # (~2000 each)
+    for sim in SIMS:
+        req[f"bind.sim.{sim}"] = 2000                           # (~7150 each)
+    for jn in XTB_JOBS[:-1]:
+        req[f"bind.xtb.job.{jn}"] = 500                         # (~2000 each)
     return req
+
+
+# =====================================================================================================================
+# known on the unchanged tree
+# =====================================================================================================================
+# Violation keys (without the "C17:" prefix) that the UNCHANGED library produces; each is written up with a tested fix in
+# /verif/tools/findings/C17-ext.json.  They are counted ("known.<key>") instead of reported.  REMOVE AFTER THE REPAIR
+# (set VERIF_C17_REPORT_KNOWN=1 to have them reported, e.g. against a repaired worktree).
+KNOWN_ON_UNCHANGED_TREE = set()      # (its five entries were repaired in the library: 34ee662, bb88d56, 339ab9c, 300f767)
+
+
+def report(ctx, key, **detail):
+    if key in KNOWN_ON_UNCHANGED_TREE and not os.environ.get("VERIF_C17_REPORT_KNOWN"):
+        ctx.count("known." + key)
+        return
+    ctx.violation(key, **detail)
 
 
 # =====================================================================================================================
 # plan
 # =====================================================================================================================
-BIND_JOBS = ["calc", "plain", "envjob", "calc_v", "mixed"]
-XTB_JOBS = ["optimize_m", "energy_m", "atom_properties_m", "optimize_ens", "mixed"]
+BIND_SEQ = ["calc", "calc_v", "envjob", "plain", "envjob_v"]
+BIND_JOBS = ["calc", "plain", "envjob", "calc_v", "envjob_v", "mixed"]
+XTB_JOBS = ["optimize_m", "energy_m", "atom_properties_m", "optimize_ens", "scan_dihedral", "mixed"]
+SHIPPED = ["crest", "orca", "nwchem"]            # drivers outside the anchored files: one small chunk each
+MODES = ["now", "held"]                          # prepare at once | hold the bound job / the generator of a vectorised job
+MODS = ["none", "modify", "copy", "clsdef"]      # see run_history
+SIMS = ["distinct", "only-envars", "only-nprocs", "only-exe", "equal", "shared-dict"]
+VARIANTS = [(m, d) for m in MODES for d in MODS]
+MODFIELDS = ["nprocs", "envars-replace", "executable", "envars-inplace", "envars-none"]
+CLS_EXE = "c17-class-level-exe"
+CLS_NPROCS = 7
 
 
 def plan(tier, seed):
@@ -121,19 +197,23 @@ def plan(tier, seed):
              for i in range(npair)]
     bind = []
     maxuse = 3 if q else 4
+    salt = 0
     for k in (2, 3):
         for job in BIND_JOBS:
             for cls in (False, True):
-                shards = 1 if (k == 2 or q) else 3
+                shards = (1 if k == 2 else 2) if q else (2 if k == 2 else 12)
+                salt += 1
                 for s in range(shards):
                     bind.append({"part": "bind", "k": k, "job": job, "cls": cls, "maxuse": maxuse + (1 if k == 2 else 0),
-                                 "shard": s, "nshards": shards})
-    xtb = [{"part": "bindxtb", "k": 2, "job": job, "cls": cls, "maxuse": 3 if q else 4}
-           for job in XTB_JOBS for cls in (False, True)]
+                                 "shard": s, "nshards": shards, "salt": salt})
+    xtb = [{"part": "bindxtb", "kit": "xtb", "k": 2, "job": job, "cls": cls, "maxuse": 3 if q else 4, "salt": j}
+           for j, job in enumerate(XTB_JOBS) for cls in (False, True)]
+    ship = [{"part": "bindxtb", "kit": kit, "k": 2, "job": "mixed", "cls": None, "maxuse": 3, "salt": j}
+            for j, kit in enumerate(SHIPPED)]
     # long chunks first; one chunk of every kind among the first few so that the evidence samples show each kind
     hashes = [{"part": "hash", "chunk": i, "n": 40 if q else 200} for i in range(1 if q else 4)]
     churn = [{"part": "bindchurn", "job": job, "rounds": 60 if q else 300} for job in ("calc", "calc_v", "mixed")]
-    specs = [ex[0], bind[0], pairs[0]] + ex[1:] + pairs[1:] + xtb + bind[1:] + churn + hashes
+    specs = [ex[0], bind[0], pairs[0]] + ex[1:] + pairs[1:] + xtb + ship + bind[1:] + churn + hashes
     only = os.environ.get("C17_PARTS")  # debugging aid: run a subset of the chunks (the run is then INCONCLUSIVE at best)
     if only:
         specs = [s for s in specs if s["part"] in only.split(",")]
@@ -257,21 +337,49 @@ def make_test_driver():
         def envjob(self, out, x, *args, **kwargs):
             return out.exitcode
 
-    decl = {"calc": ("out.dat", "aux.bin"), "calc_v": ("out.dat", "aux.bin"), "plain": None, "envjob": ()}
-    joblevel = {"calc": {}, "calc_v": {}, "plain": {}, "envjob": {"C17_JOBLEVEL": "job-level"}}
+        # the vectorised twin of a job that declares an environment variable of its own
+        envjob_v = Job.vectorize(envjob)
+
+        @envjob_v.reduce
+        def envjob_v(self, outputs, xs, *args, **kwargs):
+            return list(outputs)
+
+    decl = {"calc": ("out.dat", "aux.bin"), "calc_v": ("out.dat", "aux.bin"), "plain": None, "envjob": (), "envjob_v": ()}
+    jl = {"C17_JOBLEVEL": "job-level"}
+    joblevel = {"calc": {}, "calc_v": {}, "plain": {}, "envjob": jl, "envjob_v": jl}
     return C17Driver, decl, joblevel
 
 
-def driver_settings(rng, k, bindir):
-    """k distinct (executable, nprocs, memory, envars)"""
-    procs = rng.sample([1, 2, 3, 4, 6, 8, 12, 16, 24, 48], k)
+PROCS = [1, 2, 3, 4, 6, 8, 12, 16, 24, 48]
+PROCS_MOD = [5, 10, 20, 32, 64, 96, 128, 192]     # values given to an existing instance later (disjoint from PROCS, CLS_NPROCS)
+
+
+def driver_settings(rng, k, bindir, sim="distinct"):
+    """k settings (executable, nprocs, memory, envars).  sim: in which fields the instances differ --
+    distinct: in every field; only-envars / only-nprocs / only-exe: in exactly that field; equal: in none (separate but
+    equal dicts); shared-dict: executable and nprocs differ, ONE dict object is handed to every constructor"""
+    procs = rng.sample(PROCS, k)
     mems = rng.sample([500, 2000, 4000, 8000, 16000], k)
     names = rng.sample(["exeA", "exeB", "exeC", "xtb-6.4", "orca_5", "prog.sh"], k)
     envs = [{"C17_DRV": f"drv{i}", f"C17_ONLY_{'ABC'[i]}": f"v{i} with space"} for i in range(k)]
-    if k == 3:
-        envs[rng.randrange(3)] = None  # one driver without envars
-    elif rng.random() < 0.3:
-        envs[rng.randrange(2)] = None
+    if sim in ("distinct", "only-envars"):
+        if sim == "only-envars":     # same variables, other values (plus, sometimes, one more variable)
+            envs = [{"OMP_STACKSIZE": ["1G", "8G", "2G"][i], "C17_SCRATCH": f"/scr/{'abc'[i]}"} for i in range(k)]
+            if rng.random() < 0.5:
+                envs[rng.randrange(k)]["C17_EXTRA"] = "1"
+        if k == 3:
+            envs[rng.randrange(3)] = None  # one driver without envars
+        elif rng.random() < 0.3:
+            envs[rng.randrange(2)] = None
+    else:
+        base = rng.choice([{"C17_DRV": "same", "OMP_STACKSIZE": "4G"}, {"C17_DRV": "same"}])
+        envs = [base if sim == "shared-dict" else dict(base) for _ in range(k)]
+    if sim in ("only-envars", "only-nprocs", "equal"):
+        names = [names[0]] * k
+    if sim in ("only-envars", "only-exe", "equal"):
+        procs = [procs[0]] * k
+    if sim != "distinct":
+        mems = [mems[0]] * k
     out = []
     for i in range(k):
         p = bindir / names[i]
@@ -282,159 +390,438 @@ def driver_settings(rng, k, bindir):
     return out
 
 
-def check_input(ctx, inp, drv, want, others, hist, pos, where, case, drop_key=None):
-    """inp: a JobInput prepared through driver instance drv.  want: dict(x, flag, level, misc, return_files, joblevel).
-    others: [(executable, nprocs, envars)] of the other instances created so far + class defaults."""
+def _after(tok, flag, off=1):
+    if flag in tok and tok.index(flag) + off < len(tok):
+        return tok[tok.index(flag) + off]
+    return None
+
+
+def check_input(ctx, inp, exp, want, others, prevs, clsvals, hist, pos, where, case, drop_key=None):
+    """inp: a JobInput prepared through a driver instance whose settings, as the USER configured them, are exp =
+    {executable, nprocs, envars} (a private copy, never read back from the live driver after a job attribute was touched).
+    want: what the caller's arguments must leave in the input.  others: settings of the other instances (and their
+    earlier values) + what a class-level access binds.  prevs: earlier settings of this very instance (before it was
+    modified).  clsvals: class-level defaults declared on the driver class, if any."""
+    import re as _re
     import shlex as _sh
 
     ctx.count("bind.prepare")
-    exe, nprocs = drv.executable, drv.nprocs
-    denv = dict(drv.envars or {})
+    exe, nprocs = exp["executable"], exp["nprocs"]
+    denv = dict(exp["envars"] or {})
     cmds = list(inp.commands)
     witness = {"history": hist, "use": pos, "job": where, "driver": {"executable": exe, "nprocs": nprocs, "envars": denv},
                "commands": [c[0] for c in cmds][:3], "input_envars": inp.envars}
+    joblevel = want["joblevel"]
 
-    def stale(field, observed):
-        """is the observed value the one of ANOTHER driver (or the class-level default)? -> the descriptor mechanism"""
-        for o in others:
-            if field == "envars":
-                # an entry of another driver's environment shows up although this driver does not have it
-                if any((observed or {}).get(a) == b and denv.get(a) != b for a, b in (o["envars"] or {}).items()):
-                    return True
-            elif o[field] == observed and observed != {"executable": exe, "nprocs": nprocs}[field]:
-                return True
-        return False
+    def V(key, **d):
+        report(ctx, key, case=case, **d, **witness)
 
-    for ci, (cmd, _name) in enumerate(cmds):
-        tok = _sh.split(cmd)
+    def classify(field, observed):
+        """name the mechanism by where the wrong value comes from"""
+        if field != "envars":
+            if clsvals and observed == clsvals.get(field):
+                return f"binding:{field}-class-level-default-beats-the-instance"
+            if any(p[field] == observed for p in prevs):
+                return f"binding:{field}-stale-after-the-driver-was-modified"
+            if any(o[field] == observed and observed != exp[field] for o in others):
+                return "job-descriptor-binds-first-driver"     # the value of ANOTHER driver (or of a class-level access)
+            return f"binding:{field}-not-the-drivers"
+        obs = observed or {}
+        if any(obs == {**(p["envars"] or {}), **joblevel} and obs != {**denv, **joblevel} for p in prevs):
+            return "binding:envars-stale-after-the-driver-was-modified"
+        for o in others:    # an entry of another driver's environment shows up although this driver does not have it
+            if any(obs.get(a) == b and denv.get(a) != b for a, b in (o["envars"] or {}).items()):
+                return "job-descriptor-binds-first-driver"
+        return "binding:envars-not-the-drivers"
+
+    loc = want.get("loc", "P")
+    toks = [_sh.split(cmd) for cmd, _ in cmds]
+    for ci, tok in enumerate(toks):
+        if loc in ("P", "T"):
+            obs_exe, obs_np = (tok[0] if tok else None), _after(tok, "-" + loc)
+        elif loc == "orca":
+            txt = (inp.files or {}).get("m_orca.inp", b"")
+            txt = txt.decode() if isinstance(txt, bytes) else txt
+            m = _re.search(r"%pal\s+nprocs\s+(\S+)", txt)
+            obs_exe, obs_np = (tok[0] if tok else None), (m.group(1) if m else None)
+        else:   # nwchem: mpirun -np N <exe> esp.inp
+            obs_exe, obs_np = _after(tok, "-np", 2), _after(tok, "-np")
         ctx.count("bind.check.executable")
-        if not tok or tok[0] != str(exe):
-            key = "job-descriptor-binds-first-driver" if stale("executable", tok[0] if tok else None) else \
-                "binding:executable-not-the-drivers"
-            ctx.violation(key, case=case, field="executable", expected=str(exe), observed=tok[:1], **witness)
+        if obs_exe != str(exe):
+            V(classify("executable", obs_exe), field="executable", expected=str(exe), observed=obs_exe)
         ctx.count("bind.check.nprocs")
-        obs = tok[tok.index("-P") + 1] if "-P" in tok and tok.index("-P") + 1 < len(tok) else None
-        if obs != str(nprocs):
+        if obs_np != str(nprocs):
             try:
-                obs_i = int(obs)
+                obs_i = int(obs_np)
             except Exception:
-                obs_i = obs
-            key = "job-descriptor-binds-first-driver" if stale("nprocs", obs_i) else "binding:nprocs-not-the-drivers"
-            ctx.violation(key, case=case, field="nprocs", expected=nprocs, observed=obs, **witness)
-        if ci == 0:
-            ctx.count("bind.check.arguments")
-            for t in want["tokens"]:
-                if t not in tok:
-                    ctx.violation("binding:caller-argument-missing", case=case, field="arguments", expected=t,
-                                  observed=tok, **witness)
-                    break
+                obs_i = obs_np
+            V(classify("nprocs", obs_i), field="nprocs", expected=nprocs, observed=obs_np)
+    tok = toks[0] if toks else []
+    ctx.count("bind.check.arguments")
+    for t in want["tokens"]:
+        if t not in tok:
+            V("binding:caller-argument-missing", field="arguments", expected=t, observed=tok)
+            break
+    for flag, expected, kind, alt in want.get("pairs", ()):
+        ctx.count("bind.check.argument-value")
+        obs = _after(tok, flag)
+        if kind == "float":
+            try:
+                ok = obs is not None and abs(float(obs) - expected) <= 1e-9
+            except ValueError:
+                ok = False
+        else:
+            ok = obs == expected
+        if not ok:
+            if alt and alt[0] == "zero-charge" and obs == alt[1]:
+                V("binding:caller-argument-ignored:charge-zero-replaced-by-the-molecules-charge", field=flag,
+                  expected=expected, observed=obs)
+            else:
+                V(f"binding:caller-argument-wrong-in-command:{flag.lstrip('-')}", field=flag, expected=expected, observed=obs)
+    files = dict(inp.files or {})
+
+    def text_of(fn):
+        b = files.get(fn)
+        return b.decode(errors="replace") if isinstance(b, bytes) else b
+
+    if "param" in want:      # a text handed over by the caller that the command refers to by file name
+        ctx.count("bind.check.argument-file")
+        fn, content = want["param"]
+        if _after(tok, "--input") != fn:
+            V("binding:caller-argument-missing", field="arguments", expected=["--input", fn], observed=tok)
+        elif text_of(fn) != content:
+            V("binding:caller-argument-ignored:xtbinp-content-not-materialised", file=fn, expected=content,
+              observed=text_of(fn), input_files=sorted(files))
+    for fn, rules in want.get("filetext", ()):
+        ctx.count("bind.check.argument-in-file")
+        txt = text_of(fn)
+        if txt is None:
+            V("binding:input-files-not-from-arguments", expected=fn, observed=sorted(files))
+            continue
+        for label, rx in rules:
+            if not _re.search(rx, txt, _re.M):
+                V(f"binding:caller-argument-missing-in-input-file:{label}", file=fn, pattern=rx, text=txt[:400])
+    if "xyz" in want:        # the geometry handed over by the caller, whatever the number format
+        import molli as ml
+
+        ctx.count("bind.check.geometry")
+        fn, sym, coords = want["xyz"]
+        txt = text_of(fn)
+        if txt is None:
+            V("binding:input-files-not-from-arguments", expected=fn, observed=sorted(files))
+        else:
+            try:
+                g = ml.Molecule.loads_xyz(txt)
+                gs = [a.element.symbol for a in g.atoms]
+                dev = max((abs(float(a) - b) for r1, r2 in zip(g.coords, coords) for a, b in zip(r1, r2)), default=0.0)
+                bad = gs != sym or len(g.coords) != len(coords) or dev > 1e-3
+            except Exception as e:  # noqa
+                bad, gs, dev = True, repr(e)[:100], None
+            if bad:
+                V("binding:input-geometry-not-the-callers", file=fn, expected_elements=sym, observed_elements=gs,
+                  max_deviation=dev)
+    for fn in want.get("need_files", ()):
+        if fn not in files:
+            V("binding:input-files-not-from-arguments", expected=fn, observed=sorted(files))
     ctx.count("bind.check.envars")
     expect_env = dict(denv)
-    expect_env.update(want["joblevel"])
+    expect_env.update(joblevel)
     got_env = dict(inp.envars or {})
     if got_env != expect_env:
         if drop_key and not got_env and expect_env:
             key = drop_key
-        elif stale("envars", got_env):
-            key = "job-descriptor-binds-first-driver"
         else:
-            key = "binding:envars-not-the-drivers"
-        ctx.violation(key, case=case, field="envars", expected=expect_env, observed=got_env, **witness)
+            key = classify("envars", got_env)
+        V(key, field="envars", expected=expect_env, observed=got_env)
     if "return_files" in want:
         ctx.count("bind.check.return_files")
         rf, erf = inp.return_files, want["return_files"]
         if (rf is None) != (erf is None) or (rf is not None and list(rf) != list(erf)):
-            ctx.violation("binding:return-files-not-as-declared", case=case, expected=erf, observed=rf, **witness)
+            V("binding:return-files-not-as-declared", expected=erf, observed=rf)
+    if "need_return" in want:
+        ctx.count("bind.check.return_files")
+        if not set(want["need_return"]) <= set(inp.return_files or ()):
+            V("binding:return-files-lack-what-the-job-reads-back", expected=want["need_return"], observed=inp.return_files)
     if "files" in want:
         ctx.count("bind.check.files")
-        if dict(inp.files or {}) != want["files"]:
-            ctx.violation("binding:input-files-not-from-arguments", case=case, expected=sorted(want["files"]),
-                          observed=sorted(inp.files or {}), **witness)
+        if files != want["files"]:
+            V("binding:input-files-not-from-arguments", expected=sorted(want["files"]), observed=sorted(files))
+
+
+class TestKit:
+    """the test driver classes declared like XTBDriver"""
+    name = "test"
+    drop_key = None
+    jobs = BIND_SEQ
+
+    def fresh(self, clsdef):
+        Drv, self.decl, self.joblevel = make_test_driver()
+        if not clsdef:
+            return Drv, {}
+        # a driver subclass that declares class-level defaults; its instances are still constructed with explicit settings
+        sub = type("C17SubDriver", (Drv,), {"executable": CLS_EXE, "nprocs": CLS_NPROCS})
+        return sub, {"executable": CLS_EXE, "nprocs": CLS_NPROCS}
+
+    def construct(self, Drv, s, found):
+        if found:
+            return Drv(s["exe"], nprocs=s["nprocs"], memory=s["memory"], envars=s["envars"])
+        return Drv(s["bare"], nprocs=s["nprocs"], memory=s["memory"], envars=s["envars"], check_exe=False, find=False)
+
+    def take(self, ctx, drv, jn, pos, i, rng):
+        x, flag, level = f"mol{pos}", f"f{pos}{'ABC'[i]}", rng.choice(["lo", "hi", "x-y"])
+        misc = rng.choice([None, "--extra", "--k v"])
+        want = {"loc": "P", "tokens": [f"{x}.in", "--flag", flag, "--level", level] + (misc.split() if misc else []),
+                "joblevel": self.joblevel[jn], "return_files": self.decl[jn]}
+        job = getattr(drv, jn)                  # the attribute access is the binding event
+        if jn.endswith("_v"):
+            ctx.count("bind.vectorised")
+            if jn == "envjob_v":
+                ctx.count("bind.vectorised.job-level-envars")
+            xs = [f"{x}a", f"{x}b", f"{x}c"][: 2 + pos % 2]
+            gen = job.prepare(xs, flag, level=level, misc=misc)      # lazily evaluated
+            wants = [dict(want, tokens=[f"{xi}.in"] + want["tokens"][1:], files={f"{xi}.in": f"input of {xi}".encode()})
+                     for xi in xs]
+            return (lambda: list(gen)), wants
+        body = f"input of {x}"
+        want["files"] = {f"{x}.in": body if jn == "plain" else body.encode()}
+        return (lambda: [job.prepare(x, flag, level=level, misc=misc)]), [want]
+
+
+def run_history(ctx, kit, h, hstr, case, rng, sets, found, jobsel, cls_first, mode, mod):
+    """one create/use history through one pristine driver class.
+
+    mode  now:    every use is `getattr(driver, job)` immediately followed by prepare (and consumption of the generator)
+          held:   a use only TAKES the bound job (for a vectorised job: the un-consumed generator of prepare); what was
+                  taken is prepared / consumed after the rest of the history (other drivers created, their job attributes
+                  touched) -- what `ja = a.job; jb = b.job; jobmap(ja, ...)` does
+    mod   none
+          modify: whenever an instance is used again, one of its public settings (nprocs, executable, envars replaced /
+                  changed in place / set to None) was changed since its previous use
+          copy:   every instance after the first is a copy.copy() of a live (preferably used) instance whose settings
+                  are then assigned
+          clsdef: the driver class is a subclass declaring class-level defaults `executable` / `nprocs`
+    """
+    import copy
+
+    from molli.pipeline.job import JobInput
+
+    Drv, clsvals = kit.fresh(mod == "clsdef")
+    seq = kit.jobs
+    if cls_first:
+        ctx.count("bind.class-access-first")
+        for jn in (seq if jobsel == "mixed" else [jobsel]):
+            getattr(Drv, jn)  # what help(), inspect.getmembers(), jobmap(Driver.job, ...) do
+    inst, exp, prevs, given, given0 = {}, {}, {}, {}, {}
+    used, lastused, nuse = set(), [], {}
+    pending = []
+    modn = [rng.randrange(len(MODFIELDS))]
+
+    def others_for(i):
+        out = []
+        for j in inst:
+            if j != i:
+                out.append(exp[j])
+                out.extend(prevs[j])
+        out.append({"executable": None, "nprocs": 1, "envars": None})  # what a class-level access binds
+        return out
+
+    def fire(entry):
+        i, pos, jn, thunk, wants, e = entry
+        where = (kit.name + "." if kit.name != "test" else "") + jn
+        try:
+            got = thunk()
+            if len(got) != len(wants):
+                ctx.violation("binding:vectorised-input-count-differs", case=case, expected=len(wants), observed=len(got))
+            for inp, w in zip(got, wants):
+                if not isinstance(inp, JobInput):
+                    ctx.violation("binding:prepare-does-not-return-jobinput", case=case, observed=repr(inp)[:100])
+                    continue
+                check_input(ctx, inp, e, w, others_for(i), prevs[i], clsvals, hstr, pos, where, case, drop_key=kit.drop_key)
+        except Exception as ex:  # noqa
+            ctx.violation(f"binding:prepare-raises:{type(ex).__name__}", case=case, history=hstr, use=pos, job=where,
+                          mode=mode, mod=mod, err=repr(ex)[:300])
+        # using a driver must not change the driver (nor the dict the user handed to its constructor)
+        ctx.count("bind.check.driver-unchanged")
+        drv, cur = inst[i], exp[i]
+        for field, live in (("executable", drv.executable), ("nprocs", drv.nprocs), ("envars", drv.envars)):
+            same = (live or None) == (cur[field] or None) if field == "envars" else live == cur[field]
+            if not same:
+                ctx.violation(f"binding:use-changes-the-drivers-{field}", case=case, history=hstr, use=pos, job=where,
+                              configured=cur[field], now=live)
+        if given.get(i) is not None and given[i] != given0[i]:
+            ctx.violation("binding:use-changes-the-dict-given-to-the-constructor", case=case, history=hstr, use=pos,
+                          job=where, given=given0[i], now=given[i])
+
+    def flush():
+        todo = list(pending)
+        del pending[:]
+        if todo and rng.random() < 0.5:
+            todo.reverse()
+        for entry in todo:
+            fire(entry)
+
+    def resync_shared(d):
+        for j in inst:
+            if inst[j].envars is d:
+                exp[j]["envars"] = copy.deepcopy(d)
+                if given.get(j) is d:
+                    given0[j] = copy.deepcopy(d)
+
+    def modify(i):
+        drv = inst[i]
+        f = MODFIELDS[modn[0] % len(MODFIELDS)]
+        if f == "envars-inplace" and not isinstance(drv.envars, dict):
+            f = "envars-replace"
+        n = modn[0]
+        modn[0] += 1
+        ctx.count("bind.modify")
+        ctx.count(f"bind.modify.{f}")
+        if f == "envars-inplace":
+            d = drv.envars
+            for j in inst:
+                if inst[j].envars is d:
+                    prevs[j].append(copy.deepcopy(exp[j]))
+            d["C17_INPLACE"] = f"p{n}"
+            resync_shared(d)
+            return
+        prevs[i].append(copy.deepcopy(exp[i]))
+        if f == "nprocs":
+            taken = {e["nprocs"] for e in exp.values()} | {p["nprocs"] for ps in prevs.values() for p in ps}
+            new = next(p for p in PROCS_MOD if p not in taken)
+            drv.nprocs = new
+            exp[i]["nprocs"] = new
+        elif f == "executable":
+            drv.executable = f"exeM{n}"
+            exp[i]["executable"] = f"exeM{n}"
+        elif f == "envars-replace":
+            new = dict(drv.envars or {})
+            if new:
+                new.pop(sorted(new)[0])
+            new["C17_MOD"] = f"m{n}"
+            drv.envars = new
+            exp[i]["envars"] = copy.deepcopy(new)
+            given[i], given0[i] = new, copy.deepcopy(new)
+        else:
+            drv.envars = None
+            exp[i]["envars"] = None
+            given[i] = None
+
+    for pos, (ev, i) in enumerate(h):
+        s = sets[i]
+        if ev == "n":
+            if mod == "copy" and inst:
+                src = lastused[-1] if lastused else max(inst)
+                ctx.count("bind.copy-created")
+                if src in used:
+                    ctx.count("bind.copy-created.of-a-used-driver")
+                drv = copy.copy(inst[src])
+                drv.executable = s["exe"] if found else s["bare"]
+                drv.nprocs, drv.memory, drv.envars = s["nprocs"], s["memory"], s["envars"]
+            else:
+                drv = kit.construct(Drv, s, found)
+            inst[i] = drv
+            # the instance's settings as the user configured them: a private copy taken before any job attribute of this
+            # instance is touched
+            exp[i] = {"executable": drv.executable, "nprocs": s["nprocs"], "envars": copy.deepcopy(s["envars"])}
+            prevs[i] = []
+            given[i], given0[i] = s["envars"], copy.deepcopy(s["envars"])
+            continue
+        if mod == "modify" and nuse.get(i):
+            flush()
+            modify(i)
+        used.add(i)
+        lastused.append(i)
+        nuse[i] = nuse.get(i, 0) + 1
+        jn = seq[(pos + i) % len(seq)] if jobsel == "mixed" else jobsel
+        try:
+            thunk, wants = kit.take(ctx, inst[i], jn, pos, i, rng)
+        except Exception as ex:  # noqa
+            ctx.violation(f"binding:prepare-raises:{type(ex).__name__}", case=case, history=hstr, use=pos, job=jn,
+                          mode=mode, mod=mod, err=repr(ex)[:300])
+            continue
+        entry = (i, pos, jn, thunk, wants, copy.deepcopy(exp[i]))
+        if mode == "now":
+            fire(entry)
+        else:
+            ctx.count("bind.held")
+            if len(wants) > 1 or jn.endswith(("_v", "_ens")):
+                ctx.count("bind.held.generator")
+            pending.append(entry)
+    if pending:
+        if len({e[0] for e in pending}) >= 2:
+            ctx.count("bind.held.across-another-drivers-use")
+        flush()
+    return used
+
+
+def variants_of(hi, salt, half=False):
+    """(mode, mod, sim) triples run for history number hi: all 8 (mode, mod) variants (half: 4 of them, alternating with
+    the history), the similarity class of the settings rotating with the history and the variant"""
+    return [(m, d, SIMS[(hi + vi + salt) % len(SIMS)]) for vi, (m, d) in enumerate(VARIANTS)
+            if not half or (hi + salt + vi + vi // 4) % 2 == 0]
+
+
+def run_bind_like(ctx, kit, spec, part, hs, cls_of):
+    bindir = ctx.tmp / "bin"
+    bindir.mkdir(exist_ok=True)
+    k, jobsel = spec["k"], spec["job"]
+    for hi, h in hs:
+        hstr = hist_str(h)
+        cls_first = cls_of(hi)
+        for mode, mod, sim in variants_of(hi, spec.get("salt", 0), half=(k >= 3 and ctx.tier == "quick")):
+            case = [part, kit.name, k, jobsel, int(cls_first), hstr, mode, mod, sim]
+            if not ctx.want(case):
+                continue
+            rng = ctx.rng(*case)
+            sets = driver_settings(rng, k, bindir, sim)
+            found = rng.random() < 0.5  # existing absolute executables (default checks) or unchecked bare names
+            used = run_history(ctx, kit, h, hstr, case, rng, sets, found, jobsel, cls_first, mode, mod)
+            ctx.count("bind.history")
+            ctx.count(f"bind.mode.{mode}")
+            ctx.count(f"bind.mod.{mod}")
+            ctx.count(f"bind.sim.{sim}")
+            ctx.case(case, dkey=tuple(case), nontrivial=len(used) >= 2,
+                     sample={"kind": "binding", "driver": kit.name, "drivers": k, "job": jobsel,
+                             "class_access_first": cls_first, "history": hstr, "mode": mode, "mod": mod, "settings_differ": sim,
+                             "settings": [{a: s[a] for a in ("bare", "nprocs", "envars")} for s in sets]})
 
 
 def run_bind_chunk(spec, ctx):
-    from molli.pipeline.job import JobInput
+    hs = list(enumerate(histories(spec["k"], spec["maxuse"])))[spec["shard"]::spec["nshards"]]
+    run_bind_like(ctx, TestKit(), spec, "bind", hs, lambda hi: spec["cls"])
 
-    k, jobsel, cls_first = spec["k"], spec["job"], spec["cls"]
-    hs = histories(k, spec["maxuse"])
-    hs = hs[spec["shard"]::spec["nshards"]]
-    bindir = ctx.tmp / "bin"
-    bindir.mkdir(exist_ok=True)
-    for hi, h in enumerate(hs):
-        hstr = hist_str(h)
-        case = ["bind", k, jobsel, int(cls_first), hstr]
-        if not ctx.want(case):
-            continue
-        rng = ctx.rng("bind", k, jobsel, cls_first, hstr)
-        sets = driver_settings(rng, k, bindir)
-        found = rng.random() < 0.5  # construct with existing absolute executables (default checks) or unchecked bare names
-        Drv, decl, joblevel = make_test_driver()
-        seq = ["calc", "calc_v", "envjob", "plain"]
-        if cls_first:
-            ctx.count("bind.class-access-first")
-            for jn in (seq if jobsel == "mixed" else [jobsel]):
-                getattr(Drv, jn)  # what help(), inspect.getmembers(), jobmap(Driver.job, ...) do
-        inst = {}
-        used = set()
-        for pos, (ev, i) in enumerate(h):
-            s = sets[i]
-            if ev == "n":
-                if found:
-                    inst[i] = Drv(s["exe"], nprocs=s["nprocs"], memory=s["memory"], envars=s["envars"])
-                else:
-                    inst[i] = Drv(s["bare"], nprocs=s["nprocs"], memory=s["memory"], envars=s["envars"],
-                                  check_exe=False, find=False)
-                continue
-            used.add(i)
-            jn = seq[(pos + i) % 4] if jobsel == "mixed" else jobsel
-            drv = inst[i]
-            others = [{"executable": o.executable, "nprocs": o.nprocs, "envars": o.envars}
-                      for j, o in inst.items() if j != i]
-            others.append({"executable": None, "nprocs": 1, "envars": None})  # what a class-level access binds
-            x, flag, level = f"mol{pos}", f"f{pos}{'ABC'[i]}", rng.choice(["lo", "hi", "x-y"])
-            misc = rng.choice([None, "--extra", "--k v"])
-            want = {"tokens": [f"{x}.in", "--flag", flag], "joblevel": joblevel[jn], "return_files": decl[jn]}
-            job = getattr(drv, jn)
-            try:
-                if jn.endswith("_v"):
-                    ctx.count("bind.vectorised")
-                    xs = [f"{x}a", f"{x}b", f"{x}c"][: 2 + pos % 2]
-                    got = list(job.prepare(xs, flag, level=level, misc=misc))
-                    if len(got) != len(xs):
-                        ctx.violation("binding:vectorised-input-count-differs", case=case, expected=len(xs), observed=len(got))
-                    for xi, inp in zip(xs, got):
-                        w = dict(want, tokens=[f"{xi}.in", "--flag", flag, "--level", level],
-                                 files={f"{xi}.in": f"input of {xi}".encode()})
-                        check_input(ctx, inp, drv, w, others, hstr, pos, jn, case)
-                else:
-                    inp = job.prepare(x, flag, level=level, misc=misc)
-                    if not isinstance(inp, JobInput):
-                        ctx.violation("binding:prepare-does-not-return-jobinput", case=case, observed=repr(inp)[:100])
-                        continue
-                    body = f"input of {x}"
-                    w = dict(want, tokens=want["tokens"] + ["--level", level],
-                             files={f"{x}.in": body if jn == "plain" else body.encode()})
-                    check_input(ctx, inp, drv, w, others, hstr, pos, jn, case)
-            except Exception as e:  # noqa
-                ctx.violation(f"binding:prepare-raises:{type(e).__name__}", case=case, history=hstr, use=pos, job=jn,
-                              err=repr(e)[:300])
-        ctx.count("bind.history")
-        ctx.case(case, dkey=("bind", "test", k, jobsel, cls_first, hstr), nontrivial=len(used) >= 2,
-                 sample={"kind": "binding", "drivers": k, "job": jobsel, "class_access_first": cls_first,
-                         "history": hstr, "settings": [{a: s[a] for a in ("bare", "nprocs", "envars")} for s in sets]})
+
+def run_bindxtb_chunk(spec, ctx):
+    """the same histories through molli's own driver classes (module reloaded per history => pristine Job objects):
+    XTBDriver (anchored) job by job, CrestDriver / ORCADriver / NWChemDriver (outside the anchored files) mixed"""
+    from vmon.models.c17_kits import KITS
+
+    kit = KITS[spec["kit"]]()
+    Drv, _ = kit.fresh(False)
+    found = kit.discovered_jobs(Drv)
+    ctx.note(f"jobs.{kit.name}.without-oracle", sorted(set(found) - set(kit.jobs)))
+    if set(kit.jobs) - set(found):
+        ctx.inconclusive.append(f"{kit.clsname} lacks the jobs {sorted(set(kit.jobs) - set(found))} this check drives")
+        return
+    hs = list(enumerate(histories(spec["k"], spec["maxuse"])))
+    before = ctx.counters.get("bind.prepare", 0)
+    cls = spec["cls"]
+    run_bind_like(ctx, kit, spec, "bindxtb", hs, (lambda hi: hi % 2 == 1) if cls is None else (lambda hi: cls))
+    ctx.count(f"bind.{kit.name}.prepare", ctx.counters.get("bind.prepare", 0) - before)
 
 
 def run_bindchurn_chunk(spec, ctx):
     """drivers that are created, used and DISCARDED one after another (e.g. one driver per loop iteration): a later
     driver must not inherit anything from an earlier, dead one"""
+    import copy
     import gc
-    from molli.pipeline.job import JobInput
 
     jobsel = spec["job"]
     bindir = ctx.tmp / "bin"
     bindir.mkdir(exist_ok=True)
-    Drv, decl, joblevel = make_test_driver()
-    seq = ["calc", "calc_v", "envjob", "plain"]
+    kit = TestKit()
+    Drv, clsvals = kit.fresh(False)
+    seq = kit.jobs
     rng = ctx.rng("bindchurn", jobsel)
     sets = driver_settings(rng, 3, bindir)
     case = ["bindchurn", jobsel]
@@ -444,97 +831,25 @@ def run_bindchurn_chunk(spec, ctx):
     for it in range(spec["rounds"]):
         i = (it * 2 + it // 3) % 3
         s_ = sets[i]
-        drv = Drv(s_["bare"], nprocs=s_["nprocs"], memory=s_["memory"], envars=s_["envars"], check_exe=False, find=False)
-        jn = seq[it % 4] if jobsel == "mixed" else jobsel
-        x, flag, level = f"mol{it}", f"f{it}", "lo"
-        want = {"tokens": [f"{x}.in", "--flag", flag], "joblevel": joblevel[jn], "return_files": decl[jn]}
+        drv = kit.construct(Drv, s_, False)
+        e = {"executable": drv.executable, "nprocs": s_["nprocs"], "envars": copy.deepcopy(s_["envars"])}
+        jn = seq[it % len(seq)] if jobsel == "mixed" else jobsel
         others = list(dead[-3:]) + [{"executable": None, "nprocs": 1, "envars": None}]
+        thunk = None
         try:
-            job = getattr(drv, jn)
-            if jn.endswith("_v"):
-                xs = [f"{x}a", f"{x}b"]
-                for xi, inp in zip(xs, list(job.prepare(xs, flag, level=level, misc=None))):
-                    w = dict(want, tokens=[f"{xi}.in", "--flag", flag, "--level", level], files={f"{xi}.in": f"input of {xi}".encode()})
-                    check_input(ctx, inp, drv, w, others, f"churn{it}", it, jn, case)
-            else:
-                inp = job.prepare(x, flag, level=level, misc=None)
-                body = f"input of {x}"
-                w = dict(want, tokens=want["tokens"] + ["--level", level], files={f"{x}.in": body if jn == "plain" else body.encode()})
-                check_input(ctx, inp, drv, w, others, f"churn{it}", it, jn, case)
-        except Exception as e:  # noqa
-            ctx.violation(f"binding:prepare-raises:{type(e).__name__}", case=case, history=f"churn{it}", job=jn, err=repr(e)[:300])
+            thunk, wants = kit.take(ctx, drv, jn, it, i, rng)
+            for inp, w in zip(thunk(), wants):
+                check_input(ctx, inp, e, w, others, [], clsvals, f"churn{it}", it, jn, case)
+        except Exception as ex:  # noqa
+            ctx.violation(f"binding:prepare-raises:{type(ex).__name__}", case=case, history=f"churn{it}", job=jn,
+                          err=repr(ex)[:300])
         ctx.count("bind.churn-rounds")
-        dead.append({"executable": drv.executable, "nprocs": drv.nprocs, "envars": drv.envars})
-        del drv, job
+        dead.append(e)
+        del drv, thunk
         if it % 2:
             gc.collect()
     ctx.case(case, dkey=("bindchurn", jobsel), nontrivial=True,
              sample={"kind": "binding-churn", "job": jobsel, "rounds": spec["rounds"]})
-
-
-def run_bindxtb_chunk(spec, ctx):
-    """the same histories through molli's own XTBDriver (module reloaded per history => pristine Job objects)"""
-    import importlib
-
-    import molli as ml
-    import molli.pipeline.xtb as xtbmod
-    from molli.pipeline.job import JobInput
-
-    k, jobsel, cls_first = spec["k"], spec["job"], spec["cls"]
-    mol = ml.Molecule.loads_xyz("3\nwater\nO 0.0 0.0 0.0\nH 0.0 0.0 0.96\nH 0.0 0.93 -0.24\n")
-    mol.name = "water"
-    ens = ml.ConformerEnsemble(mol)
-    seq = ["optimize_m", "energy_m", "atom_properties_m", "optimize_ens"]
-    bindir = ctx.tmp / "bin"
-    bindir.mkdir(exist_ok=True)
-    for h in histories(k, spec["maxuse"]):
-        hstr = hist_str(h)
-        case = ["bindxtb", k, jobsel, int(cls_first), hstr]
-        if not ctx.want(case):
-            continue
-        rng = ctx.rng("bindxtb", k, jobsel, cls_first, hstr)
-        sets = driver_settings(rng, k, bindir)
-        mod = importlib.reload(xtbmod)
-        Drv = mod.XTBDriver
-        if cls_first:
-            ctx.count("bind.class-access-first")
-            for jn in (seq if jobsel == "mixed" else [jobsel]):
-                getattr(Drv, jn)
-        inst, used = {}, set()
-        for pos, (ev, i) in enumerate(h):
-            s = sets[i]
-            if ev == "n":
-                inst[i] = Drv(s["exe"], nprocs=s["nprocs"], memory=s["memory"], envars=s["envars"])
-                continue
-            used.add(i)
-            jn = seq[(pos + i) % 4] if jobsel == "mixed" else jobsel
-            drv = inst[i]
-            others = [{"executable": o.executable, "nprocs": o.nprocs, "envars": o.envars}
-                      for j, o in inst.items() if j != i]
-            others.append({"executable": None, "nprocs": 1, "envars": None})
-            method = rng.choice(["gfn2", "gfn1", "gff"])
-            maxiter = rng.choice([17, 250, 999])
-            misc = rng.choice(["--c17misc", "--alpb water"])
-            want = {"tokens": [f"--{method}", "--iterations", str(maxiter)] + misc.split(), "joblevel": {}}
-            ctx.count("bind.xtb.prepare")
-            try:
-                job = getattr(drv, jn)
-                if jn == "optimize_ens":
-                    got = list(job.prepare(ens, method=method, maxiter=maxiter, misc=misc))
-                else:
-                    got = [job.prepare(mol, method=method, maxiter=maxiter, misc=misc)]
-                for inp in got:
-                    if not isinstance(inp, JobInput):
-                        ctx.violation("binding:prepare-does-not-return-jobinput", case=case, observed=repr(inp)[:100])
-                        continue
-                    check_input(ctx, inp, drv, want, others, hstr, pos, "XTBDriver." + jn, case,
-                                drop_key="xtb-driver-input-drops-envars")
-            except Exception as e:  # noqa
-                ctx.violation(f"binding:prepare-raises:{type(e).__name__}", case=case, history=hstr, use=pos,
-                              job="XTBDriver." + jn, err=repr(e)[:300])
-        ctx.count("bind.history")
-        ctx.case(case, dkey=("bind", "xtb", k, jobsel, cls_first, hstr), nontrivial=len(used) >= 2,
-                 sample={"kind": "binding-XTBDriver", "job": jobsel, "class_access_first": cls_first, "history": hstr})
 
 
 def run_hash_chunk(spec, ctx):
@@ -587,7 +902,9 @@ def run_hash_chunk(spec, ctx):
 # =====================================================================================================================
 # part 2: execution
 # =====================================================================================================================
-ENV_LOGGED = ["C17_NEW", "C17_OVR", "C17_KEEP", "C17_WEIRD", "C17_NEVER"]
+ENV_LOGGED = ["C17_NEW", "C17_OVR", "C17_KEEP", "C17_WEIRD", "C17_NEVER", "C17_TOOLDIR"]
+TOOL = "c17tool"     # a program the commands name WITHOUT a directory: which one runs is decided by PATH
+TOOL_FROM = {"both": "job", "job-only": "job", "caller-only": "caller"}
 TEXTS = ["", "plain line\n", "no trailing newline", "two\nlines\n", "héllo wörld ✓ 𝛼\n", "\ttabs\tand  spaces \n\n\n",
          " | TOTAL ENERGY      -5.070544 Eh |\n", "$HOME `id` $(id) ; * ? [a-z] \\n \\ '\"\n"]
 NAMES = ["xtb", "step2", "orca_main", "crest-1", "näme 2", "C", "post.proc", "x"]
@@ -626,6 +943,11 @@ def _text(rng, big=False):
     return t
 
 
+def _huge(kind, nlines):
+    """the log of a long calculation: several MB, every line different"""
+    return _ascii("".join(f"{kind} {j:07d}  SCF ITERATION   -1234.567890123456   0.000012 é\n" for j in range(nlines)))
+
+
 def build_case(n, f, v, rng, tag="", rendezvous=None):
     """the requested job + the model of what must happen.  n commands, f = index of the first failing command (-1: none),
     v = variant number (drives the structural dimensions deterministically; rng supplies contents)."""
@@ -641,6 +963,17 @@ def build_case(n, f, v, rng, tag="", rendezvous=None):
     if f >= 0:
         fail_mode = [("exit", 1), ("exit", 2), ("sig", 9), ("exit", 77), ("exit", 255), ("enoent",), ("sig", 15),
                      ("exit", 127), ("exit", 1)][(v + ci) % 9]
+    # the commands name a program without a directory; where it is found: on the PATH of the runner's environment only,
+    # on both that and (first) the PATH the job's envars ask for, or only on the job's PATH
+    path_kind = [None, "both", None, "job-only", None, "caller-only"][(v + 2 * ci) % 6]
+    # the last command that runs prints several MB on stdout AND stderr (and is named)
+    huge = v % 18 == 7
+    huge_cmd = (n - 1) if f < 0 else (f - 1 if fail_mode == ("enoent",) else f)
+    if huge and huge_cmd >= 0:
+        mask |= 1 << huge_cmd
+    # what is already there where the report will be written: the report of another input under the same name, of an
+    # earlier failed attempt of this input, or a truncated file
+    stale_out = [None, "other-input", None, "garbage", None, "failed-attempt", None][(v // 2 + ci) % 7]
 
     # ---- input files
     infiles = {}
@@ -664,6 +997,14 @@ def build_case(n, f, v, rng, tag="", rendezvous=None):
         req, sub = [], 0
     else:
         req, sub = None, 0
+    # a requested name that is a relative path in a non-normalised spelling ("./r.txt", "sub//deep.out")
+    nonnorm = None
+    if not tag and rf_kind == "names" and (v // 3 + ci) % 4 == 1:
+        cand = [j for j, r in enumerate(req) if r not in infiles]
+        if cand:
+            j = rng.choice(cand)
+            r = req[j]
+            req[j] = nonnorm = r.replace("/", rng.choice(["//", "/./"])) if "/" in r else "./" + r
     # ---- commands
     names = rng.sample(NAMES, n)
     cmds = []
@@ -671,6 +1012,9 @@ def build_case(n, f, v, rng, tag="", rendezvous=None):
         c = {"idx": i, "name": (tag + names[i]) if mask >> i & 1 else None,
              "stdout": _text(rng, big=(v % 13 == 5 and i == 0)), "stderr": _text(rng),
              "creates": [], "argv": list(rng.choice(ARGS)), "fail": fail_mode if i == f else None}
+        if huge and i == huge_cmd:
+            c["stdout"] += _huge("OUT", 52000)
+            c["stderr"] += _huge("ERR", 31000)
         cmds.append(c)
     never = set()
     for j, r in enumerate(req or []):
@@ -702,6 +1046,8 @@ def build_case(n, f, v, rng, tag="", rendezvous=None):
         "envars": envars, "base_env": base_env, "jid": rng.choice(JIDS), "inpname": rng.choice(INPNAMES),
         "timeout": rng.choice([None, None, 3600.0]), "make_scratch": v % 3 != 0, "make_out": v % 4 != 1,
         "foreign": v % 5 == 2, "rendezvous": rendezvous,
+        "path_kind": path_kind, "huge": huge_cmd if huge and huge_cmd >= 0 else None, "stale_out": stale_out,
+        "nonnorm": nonnorm,
     }
     # ---- the model
     ran, failed = [], None
@@ -726,7 +1072,8 @@ def build_case(n, f, v, rng, tag="", rendezvous=None):
 
 def structural_key(c):
     return ("exec", c["n"], c["f"], c["fail_mode"], c["mask"], c["rf_kind"], len(c["req"] or []), tuple(c["never"]),
-            tuple(sorted(c["model"]["files"])), c["file_kind"], c["env_kind"], c["rel"], c["make_scratch"], c["foreign"])
+            tuple(sorted(c["model"]["files"])), c["file_kind"], c["env_kind"], c["rel"], c["make_scratch"], c["foreign"],
+            c["path_kind"], c["huge"], c["stale_out"], c["nonnorm"] is not None)
 
 
 def is_nontrivial(c):
@@ -739,7 +1086,9 @@ def describe(c):
             "fail_mode": c["fail_mode"], "named": [x["name"] for x in c["cmds"]],
             "return_files": c["req"], "never_created": c["never"], "input_files": {k: len(b) for k, b in c["infiles"].items()},
             "envars": c["envars"], "relative_paths": c["rel"], "expect_exit_zero": c["model"]["ok"],
-            "expect_ran": [i + 1 for i in c["model"]["ran"]]}
+            "expect_ran": [i + 1 for i in c["model"]["ran"]], "program_found_on": c["path_kind"],
+            "large_capture_command": None if c["huge"] is None else c["huge"] + 1, "already_in_output_dir": c["stale_out"],
+            "output_dir_exists": c["make_out"] or bool(c["stale_out"])}
 
 
 def write_scripts(c, logdir):
@@ -784,7 +1133,8 @@ def write_scripts(c, logdir):
         else:
             ln.append(f"kill -{fm[1]} $$; sleep 5; exit 0")
         (logdir / f"s{i}.sh").write_text("\n".join(ln) + "\n")
-        out.append(shlex.join(["sh", "-c", f". {q(str(logdir / f's{i}.sh'))}", "c17"] + cmd["argv"]))
+        out.append(shlex.join([TOOL if c["path_kind"] else "sh", "-c", f". {q(str(logdir / f's{i}.sh'))}", "c17"]
+                              + cmd["argv"]))
     return out
 
 
@@ -817,20 +1167,52 @@ def prepare_case(c, root):
         d.mkdir(parents=True)
     (work / "sentinel.txt").write_bytes(b"caller's file\n")
     cmds = write_scripts(c, logdir)
+    env = dict(os.environ)
+    env.update(c["base_env"])
+    for e in ("C17_NEW", "C17_WEIRD", "C17_NEVER", "C17_TOOLDIR"):
+        env.pop(e, None)
+    envars = c["envars"]
+    if c["path_kind"]:
+        # two directories that may hold a program of the same bare name; each variant tells the command which one it is
+        pc, pj = root / "tools of the caller", root / "tools of the job"
+        for d, who in ((pc, "caller"), (pj, "job")):
+            d.mkdir()
+            if (who == "caller" and c["path_kind"] != "job-only") or (who == "job" and c["path_kind"] != "caller-only"):
+                (d / TOOL).write_text(f'#!/bin/sh\nC17_TOOLDIR={who}\nexport C17_TOOLDIR\nexec sh "$@"\n')
+                (d / TOOL).chmod(0o755)
+        env["PATH"] = f"{pc}{os.pathsep}{env.get('PATH', os.defpath)}"
+        if c["path_kind"] != "caller-only":      # module-style: the job's environment puts its own tool directory first
+            envars = dict(envars or {})
+            envars["PATH"] = f"{pj}{os.pathsep}{env['PATH']}"
     inp = JobInput(c["jid"], commands=[(s, x["name"]) for s, x in zip(cmds, c["cmds"])],
                    files=dict(c["infiles"]) if c["infiles"] or c["v"] % 2 else None,
                    return_files=None if c["req"] is None else tuple(c["req"]),
-                   envars=c["envars"], timeout=c["timeout"])
+                   envars=envars, timeout=c["timeout"])
     fn = c["inpname"] + ".inp"
+    # the output directory is, like the scratch directory, more than one level below what exists
     if c["rel"]:
-        ifn, odir, sdir = work / fn, work / "out rel", work / "scr/rel"
-        argv = [fn, "-o", "out rel", "-s", "scr/rel"]
+        ifn, odir, sdir = work / fn, work / "out rel" / "deep", work / "scr/rel"
+        argv = [fn, "-o", "out rel/deep", "-s", "scr/rel"]
         expect_work = {"sentinel.txt", fn}
     else:
-        ifn, odir, sdir = root / "in" / fn, root / "out", root / "scratch" / "lvl"
+        ifn, odir, sdir = root / "in" / fn, root / "out" / "deep", root / "scratch" / "lvl"
         argv = [str(ifn), "-o", str(odir), "-s", str(sdir)]
         expect_work = {"sentinel.txt"}
     inp.dump(ifn)
+    ofile = odir / (c["inpname"] + ".out")
+    stale = None
+    if c["stale_out"]:
+        from molli.pipeline.job import JobOutput
+
+        odir.mkdir(parents=True, exist_ok=True)
+        if c["stale_out"] == "other-input":
+            JobOutput(input_hash=b"hash-of-the-input-that-had-this-name-before", exitcode=0, stdouts={"old": "old stdout\n"},
+                      stderrs={"old": ""}, files={"old.file": b"old"}).dump(ofile)
+        elif c["stale_out"] == "failed-attempt":
+            JobOutput(input_hash=inp.hash, exitcode=1, stdouts={"c17-earlier-attempt": "died\n"}, stderrs={}, files={}).dump(ofile)
+        else:
+            ofile.write_bytes(b"\x85\xa7stdouts\x81\xa1x")     # a truncated report
+        stale = ofile.read_bytes()
     if c["make_scratch"]:
         sdir.mkdir(parents=True, exist_ok=True)
         if c["foreign"]:
@@ -838,12 +1220,9 @@ def prepare_case(c, root):
             (sdir / f"{c['jid']}__other" / "keep.me").write_bytes(b"another job's file")
     if c["make_out"]:
         odir.mkdir(parents=True, exist_ok=True)
-    env = dict(os.environ)
-    env.update(c["base_env"])
-    env.pop("C17_NEW", None), env.pop("C17_WEIRD", None), env.pop("C17_NEVER", None)
     return {"inp": inp, "ifn": ifn, "odir": odir, "sdir": sdir, "argv": [str(molli_run_path())] + argv, "env": env,
-            "work": work, "logdir": logdir, "expect_work": expect_work, "ofile": odir / (c["inpname"] + ".out"),
-            "scratch_before": listing(sdir) or {}}
+            "work": work, "logdir": logdir, "expect_work": expect_work, "ofile": ofile, "stale": stale,
+            "out_existed": odir.exists(), "scratch_before": listing(sdir) or {}}
 
 
 def launch(L):
@@ -872,9 +1251,21 @@ def judge(ctx, c, L, rc, stderr, case):
     wit = {"job": describe(c), "exit_status": rc, "runner_stderr": stderr[-400:]}
 
     def V(key, **d):
-        ctx.violation(key, case=case, **d, **wit)
+        report(ctx, key, case=case, **d, **wit)
 
+    norm = os.path.normpath
+    # the report as found after the run; a file that is byte for byte what was there before the run was not written
+    written = L["ofile"].exists() and (L["stale"] is None or _rd(L["ofile"]) != L["stale"])
     ctx.count("exec.run")
+    if c["path_kind"]:
+        ctx.count(f"exec.path.{c['path_kind']}")
+    if c["stale_out"]:
+        ctx.count("exec.out.preexisting")
+        ctx.count(f"exec.out.preexisting.{c['stale_out']}")
+    if not L["out_existed"]:
+        ctx.count("exec.out.nested-absent")
+    if c["nonnorm"] is not None:
+        ctx.count("exec.rf.nonnormalised")
     ctx.count(f"exec.n{c['n']}.fail{'-none' if c['f'] < 0 else c['f'] + 1}")
     ctx.count(f"exec.rf.{c['rf_kind']}")
     if c["rel"]:
@@ -948,13 +1339,18 @@ def judge(ctx, c, L, rc, stderr, case):
     # ---- environment and argv of every command that ran
     exp_env = dict(c["base_env"])
     exp_env.update(c["envars"] or {})
+    if c["path_kind"]:
+        exp_env["C17_TOOLDIR"] = TOOL_FROM[c["path_kind"]]
     for i in ran:
         ctx.count("exec.env")
         for e in ENV_LOGGED:
             got = _rdt(logdir / f"c{i}.env.{e}")
             exp = exp_env.get(e, "__C17_UNSET__")
             if got != exp:
-                if e in (c["envars"] or {}) and e in c["base_env"]:
+                if e == "C17_TOOLDIR":
+                    # the program named by the command was not the one found first on the PATH of the job's environment
+                    key = "exec:program-not-looked-up-in-the-jobs-environment"
+                elif e in (c["envars"] or {}) and e in c["base_env"]:
                     key = "exec:env-override-not-applied"
                 elif e in (c["envars"] or {}):
                     key = "exec:env-job-variable-missing"
@@ -979,12 +1375,21 @@ def judge(ctx, c, L, rc, stderr, case):
     else:
         ctx.count("exec.exit.nonzero-expected")
     crashed = "Traceback (most recent call last)" in stderr
-    rf_none_crash = c["req"] is None and crashed and not L["ofile"].exists() and "TypeError" in stderr
+    rf_none_crash = c["req"] is None and crashed and not written and "TypeError" in stderr
     if rf_none_crash:
         V("return-files-none-crashes-runner", output_file_exists=False)
     else:
         if m["ok"] and rc != 0:
-            V("exec:exit-nonzero-although-all-succeeded", crashed=crashed)
+            key = "exec:exit-nonzero-although-all-succeeded"
+            if c["nonnorm"] is not None and written and not crashed and order == m["ran"]:
+                # every command ran, the report itself holds every requested file -- and still a failure is signalled
+                try:
+                    have = {norm(k) for k in (JobOutput.load(L["ofile"]).files or {})}
+                except Exception:  # noqa
+                    have = set()
+                if have == {norm(r) for r in c["req"]}:
+                    key += ":requested-name-not-normalised"
+            V(key, crashed=crashed)
         if not m["ok"] and rc == 0:
             if m["failed"] is not None:
                 V("exec:exit-zero-although-a-command-failed", failed_command=m["failed"])
@@ -994,7 +1399,7 @@ def judge(ctx, c, L, rc, stderr, case):
 
     # ---- the report
     out = None
-    if not L["ofile"].exists():
+    if not written:
         if not rf_none_crash and not enoent:
             where = sorted(listing(L["odir"]) or {})[:5]
             V("exec:output-file-missing-where-o-says", expected=str(L["ofile"]), crashed=crashed, found=where)
@@ -1020,6 +1425,8 @@ def judge(ctx, c, L, rc, stderr, case):
                 continue
             if i in ran:
                 ctx.count("exec.capture.named-command")
+                if c["huge"] == i:
+                    ctx.count("exec.capture.large")
                 go, ge = so.get(nm), se.get(nm)
                 if go != x["stdout"] or ge != x["stderr"]:
                     if go == x["stderr"] and ge == x["stdout"] and x["stdout"] != x["stderr"]:
@@ -1039,13 +1446,15 @@ def judge(ctx, c, L, rc, stderr, case):
             V("exec:capture-for-unknown-name", extra=sorted((set(so) | set(se)) - known)[:5])
         # files
         ctx.count("exec.files")
-        gf = out.files or {}
+        # a file is accepted under the name it was requested by or under the normalised spelling of that name
+        gf = {norm(k): val for k, val in (out.files or {}).items()}
+        mf = {norm(k): val for k, val in m["files"].items()}
         if c["req"] is not None and len(m["files"]) < len(c["req"]):
             ctx.count("exec.files.missing-subset")
-        if set(gf) != set(m["files"]):
-            V("exec:returned-file-set-differs", expected=sorted(m["files"]), observed=sorted(gf),
-              lost=sorted(set(m["files"]) - set(gf)), extra=sorted(set(gf) - set(m["files"])))
-        for fn, data in m["files"].items():
+        if set(gf) != set(mf) or len(gf) != len(out.files or {}):
+            V("exec:returned-file-set-differs", expected=sorted(m["files"]), observed=sorted(out.files or {}),
+              lost=sorted(set(mf) - set(gf)), extra=sorted(set(gf) - set(mf)))
+        for fn, data in mf.items():
             if fn in gf:
                 ctx.count("exec.files.returned")
                 expb = data.encode(ENCODING) if isinstance(data, str) else data
